@@ -284,12 +284,12 @@ theorem segOp_safe {b : Bool} {st : St} (h : Good b st) (op : Seg.Op) (wf : Seg.
       Good b { st with seg := s' } ∧ Ext st { st with seg := s' } := by
   have hs := segStep_nonrewrite h.inv op wf hop
   refine ⟨hs.1, fun s' o e => ?_⟩
-  obtain ⟨he, hi, hm⟩ := hs.2 _ _ e
+  obtain ⟨he, hi⟩ := hs.2 _ _ e
   have hp : st.seg.pending ⊆ s'.pending := by
     have := pending_step st.seg op
     rw [← he] at this
     exact this
-  exact good_setSeg h hi hm hp
+  exact good_setSeg h hi hp
 
 theorem evalStrict_ok {b : Bool} {env : Env} {st : St} (h : Good b st) (hb : env.paths.isEmpty = !b)
     (dir : String) (line col : Nat) (a : Arg) :
